@@ -117,6 +117,32 @@ def check_tag_len(cls: int, constructed: bool, num: int, n: int) -> t.Optional[t
     return None
 
 
+def check_views(n: int) -> t.Optional[t.Tuple[str, str]]:
+    """The same octets handed over as memoryviews of other item formats (signed char, char, an array('b')) and as a slice of a
+    larger buffer: what a reader returns depends on the octets, not on how the caller's buffer names them."""
+    import array
+
+    content = bytes((i * 37 + 200) % 256 for i in range(n))
+    exp = b"\x04" + ber.enc_len(n) + content + b"\x02\x02\x00\x80"
+    views = {
+        "cast-b": lambda d: memoryview(d).cast("b"),
+        "cast-c": lambda d: memoryview(d).cast("c"),
+        "array-b": lambda d: memoryview(array.array("b", [x - 256 if x > 127 else x for x in d])),
+        "slice-of-larger": lambda d: memoryview(b"\xff\xff" + d + b"\xff")[2:-1],
+        "bytearray": lambda d: bytearray(d),
+    }
+    for name, mk in views.items():
+        try:
+            r = asn1.ASN1Reader(mk(exp))
+            v = r.read_octet_string()
+            i = r.read_integer()
+        except BaseException as e:
+            return (f"view-read-raises:{name}:{type(e).__name__}", f"reading a {n}-octet string from a {name} buffer raised {type(e).__name__}: {e}")
+        if bytes(v) != content or i != 128 or r:
+            return (f"view-read-differs:{name}", f"a {n}-octet string read from a {name} buffer came back as {len(v)} octets, then {i}")
+    return None
+
+
 def check_length(n: int) -> t.Optional[t.Tuple[str, str]]:
     content = b"x" * n
     w = asn1.ASN1Writer()
@@ -440,6 +466,9 @@ def _work(job: t.Tuple[str, int, int]) -> evid.Local:
     elif fam == "lengths":
         for n in range(lo, hi):
             rec(check_length(n), {"fam": "len", "n": n}, 3)
+    elif fam == "views":
+        for n in list(range(0, 300)) + [65535, 65536]:
+            rec(check_views(n), {"fam": "views", "n": n}, 5)
     elif fam == "lengths-big":
         for n in (65535, 65536, 65537, 65536 + 256, 131072, 2**24 - 1, 2**24):
             rec(check_length(n), {"fam": "len", "n": n}, 3)
@@ -481,7 +510,7 @@ def run(ctx: evid.Ctx) -> None:
     for ln in range(1, (8 if thorough else 6) + 1):
         jobs += [("content-alpha", ln, first) for first in ALPHA6]
     jobs += [("tags", a, b) for a, b in par.split(len(_CFG["tagnums"]), 32)]
-    jobs += [("tags-universal", 0, 0), ("tags-long", 0, 0), ("push-tags", 0, 0), ("big-shapes", 0, 0)]
+    jobs += [("tags-universal", 0, 0), ("tags-long", 0, 0), ("push-tags", 0, 0), ("big-shapes", 0, 0), ("views", 0, 0)]
     jobs += [("lengths", a, b) for a, b in par.split(70001 if thorough else 1101, 64)]
     jobs += [("lengths-big", 0, 0), ("bool", 0, 0), ("octets-dom", 0, 0)]
     jobs += [("octets", a, b) for a, b in par.split(65536, 16)]
@@ -524,6 +553,8 @@ def replay(case: t.Dict[str, t.Any], key: t.Optional[str] = None) -> t.Tuple[boo
         r = check_int_content(bytes.fromhex(case["hex"]), fam == "content-hdr")
     elif fam == "tag":
         r = check_tag(case["cls"], case["constructed"], int(case["num"]), b"v" if "content" not in case else bytes.fromhex(case["content"]))
+    elif fam == "views":
+        r = check_views(case["n"])
     elif fam == "push-tag":
         r = check_push_tag(case["method"], case["cls"], case["constructed"], int(case["num"]))
     elif fam == "big-shape":
